@@ -216,7 +216,7 @@ static ssize_t rc_write(void *c, const char *buf, size_t n) {
     RegCookie *rc = c; FsNode *nd = rc->n;
     size_t want = n; bool crash = false;
     if (rc->dead) return (ssize_t)n;
-    if (nd->write_limit && nd->written + n >= nd->write_limit) { want = (size_t)(nd->write_limit - nd->written); crash = true; }
+    if (nd->limit_on && nd->written + n >= nd->write_limit) { want = (size_t)(nd->write_limit - nd->written); crash = true; }
     if (rc->oflags & O_APPEND) rc->pos = nd->data.len;
     if (rc->pos + want > nd->data.len) {
         size_t old = nd->data.len;
